@@ -36,8 +36,18 @@ impl Locator {
         if path.is_empty() {
             Err(Error::EmptyPath)
         } else {
-            let url = self.url.join(path).map(Arc::new)?;
-            Ok(Locator { url })
+            let mut url = self.url.join(path)?;
+            // A file system ignores empty path segments: `a//b.oal` is the file `a/b.oal`.
+            // Keep one locator per file, otherwise each relative import made from such a
+            // locator inherits (and can grow) the doubled separator.
+            if url.scheme() == "file" && url.path().contains("//") {
+                let mut path = url.path().to_owned();
+                while path.contains("//") {
+                    path = path.replace("//", "/");
+                }
+                url.set_path(&path);
+            }
+            Ok(Locator { url: Arc::new(url) })
         }
     }
 }
